@@ -15,6 +15,7 @@ struct Variant
 {
     bool revEq = false, revVars = false, compBA = false;
     bool cross = false; // in component B the classes x1 and x2 go by each other's name
+    bool initElsewhere = false; // a state or constant that component B reads carries its initial value on B's copy (in B's units)
     std::string prefix;
 };
 
@@ -103,12 +104,22 @@ static std::string writeModel(const J &sys, const Variant &vr, const J &external
                         init = " initial_value=\"7\"";
                     }
                 }
+                if (vr.initElsewhere && !init.empty() && seen["B"].count(n) && comp == "A" && n != "u" && n != "w") {
+                    init = ""; // the copy in B carries it
+                }
                 // implicit systems with several unknowns need initial guesses (the NLA solver starts from them)
                 if ((n == "u" || n == "w") && (nla == "guess" || nla == "pair")) {
                     init = " initial_value=\"1\"";
                 }
                 if (n == "w" && nla == "mixed") {
                     init = " initial_value=\"1\"";
+                }
+            }
+            if (vr.initElsewhere && home[n] == "A" && comp == "B" && faultName != n) {
+                for (auto &c : classes.a) {
+                    if (c["name"].str() == n && (c["role"].str() == "const" || c["role"].str() == "state")) {
+                        init = " initial_value=\"" + std::to_string(c["init"].num() * 1000) + "\""; // B works in milliseconds
+                    }
                 }
             }
             s += "  <variable name=\"" + V(n, comp) + "\" units=\"" + unitsOf(comp) + "\"" + init + " interface=\"public\"/>\n";
@@ -242,6 +253,62 @@ static J summarise(const AnalyserModelPtr &am, const std::string &prefix, bool f
         add(am->variable(i), "v");
     }
     r.set("vars", vars);
+    {
+        // order-independent signature: per class, its type, the types of its equations, whether they are state / rate based and
+        // which classes the equations they depend on compute
+        std::map<const AnalyserVariable *, std::string> nameOfVar;
+        size_t k = 0;
+        auto note = [&](const AnalyserVariablePtr &av) { nameOfVar[av.get()] = vars[k++]["name"].str(); };
+        if (am->voi()) {
+            note(am->voi());
+        }
+        for (size_t i = 0; i < am->stateCount(); ++i) {
+            note(am->state(i));
+        }
+        for (size_t i = 0; i < am->variableCount(); ++i) {
+            note(am->variable(i));
+        }
+        std::vector<std::string> sig;
+        auto one = [&](const AnalyserVariablePtr &av) {
+            std::set<std::string> types, deps;
+            bool rateBased = false;
+            for (size_t e = 0; e < av->equationCount(); ++e) {
+                auto eq = av->equation(e);
+                if (!eq) {
+                    continue;
+                }
+                types.insert(AnalyserEquation::typeAsString(eq->type()));
+                rateBased = rateBased || eq->isStateRateBased();
+                for (size_t d = 0; d < eq->dependencyCount(); ++d) {
+                    auto dep = eq->dependency(d);
+                    for (size_t v = 0; dep && v < dep->variableCount(); ++v) {
+                        deps.insert(nameOfVar.count(dep->variable(v).get()) ? nameOfVar[dep->variable(v).get()] : std::string("?"));
+                    }
+                }
+            }
+            std::string line = nameOfVar[av.get()] + ":" + AnalyserVariable::typeAsString(av->type()) + ":";
+            for (auto &t : types) {
+                line += t + ",";
+            }
+            line += rateBased ? ":rb:" : ":-:";
+            for (auto &d : deps) {
+                line += d + ",";
+            }
+            sig.push_back(line);
+        };
+        for (size_t i = 0; i < am->stateCount(); ++i) {
+            one(am->state(i));
+        }
+        for (size_t i = 0; i < am->variableCount(); ++i) {
+            one(am->variable(i));
+        }
+        std::sort(sig.begin(), sig.end());
+        J sj = J::arr();
+        for (auto &x : sig) {
+            sj.push(x);
+        }
+        r.set("sig", sj);
+    }
     if (full) {
         std::map<const AnalyserEquation *, long long> eqIdx;
         for (size_t i = 0; i < am->equationCount(); ++i) {
@@ -480,8 +547,9 @@ static void systemDrv(const J &sc, Emitter &out)
     const J &sys = sc["sys"];
     J ev = J::obj();
     ev.set("e", "system").set("sys", sys).set("run", sc["run"]).set("expect", sc["expect"]);
-    std::vector<Variant> variants(7);
+    std::vector<Variant> variants(8);
     variants[6].cross = true;
+    variants[7].initElsewhere = variants[7].compBA = true;
     variants[1].revEq = true;
     variants[2].revVars = true;
     variants[3].compBA = true;
